@@ -121,6 +121,22 @@ Theorem C12_entry_modes_agree : forall (O : std_oracle) (l l' : elevel) (t : ety
   run_entry_gen O l MMut t s c lg = run_entry_gen O l' MRo t s c lg.
 Proof. exact entry_modes_agree. Qed.
 
+(* decided at run time: if the traced mutable run reaches no assignment (there may be assignment operators behind a
+   failure), both modes coincide; if it applies one, the shared-context entry point of EVERY result type answers
+   ContextNotMutable with the user-function calls made up to there and the context untouched, and the mutable one is the
+   projection of the mutable run *)
+Theorem C12_node_modes_agree_dynamic : forall (O : std_oracle) (t : etype) (n : node) (c : ctx) (lg : log),
+  snd (eval_traced O n c lg None) = None ->
+  run_node_entry O MMut t n c lg = run_node_entry O MRo t n c lg.
+Proof. exact node_modes_agree_dynamic. Qed.
+
+Theorem C12_node_ro_refuses : forall (O : std_oracle) (t : etype) (n : node) (c : ctx) (lg : log)
+    (r : outcome value) (c' : ctx) (lg' l0 : log),
+  eval_traced O n c lg None = (r, c', lg', Some l0) ->
+  run_node_entry O MRo t n c lg = (Err EContextNotMutable, c, l0) /\
+  run_node_entry O MMut t n c lg = (project t r, c', lg').
+Proof. exact node_ro_refuses. Qed.
+
 (* non-vacuity: a hand-built tree that no source denotes (an addition with three children) still goes through
    every tree-level entry point as the projection says *)
 Example C12_node_views_hand : forall (O : std_oracle) (c : ctx) (lg : log),
